@@ -19,6 +19,7 @@ type EvalCtx struct {
 	pkg    string      // package path for resolving unqualified type names
 	inOld  bool
 	bound  map[string]Val // variables bound by quantifiers and predicate parameters
+	noRename bool
 	iterCell string
 	loopIter string // value of `loopiter` for the loop being evaluated // visited-set cell of the map iteration of the loop being checked
 	preferFrame bool // loop invariants: source-level current values shadow entry values
@@ -184,6 +185,18 @@ func (c *EvalCtx) lookup(name string) (Val, bool) {
 				return c.x.load(c.p, c.snap(), v.A), true
 			}
 			return v, true
+		}
+	}
+	if !c.noRename && c.x != nil {
+		// the source may spell the identifier differently than when the contract was written (see locals.go)
+		fn := c.x.fn
+		if c.frame != nil && c.frame.fn != nil {
+			fn = c.frame.fn
+		}
+		if now := c.x.e.renamesOf(fn)[name]; now != "" {
+			d := *c
+			d.noRename = true
+			return d.lookup(now)
 		}
 	}
 	return Val{}, false
